@@ -50,7 +50,7 @@ EXPECTED_FACTS = {
 
 PROP = {
     "lean_modules": ["GunYu.Props.C05", "GunYu.Props.C05Recv", "GunYu.Props.C05Callers", "GunYu.Props.C05Dirs",
-                     "GunYu.Props.C05Progress", "GunYu.Props.C05Window"],
+                     "GunYu.Props.C05Progress", "GunYu.Props.C05Window", "GunYu.Props.C05Reach", "GunYu.Props.C05Distinct", "GunYu.Props.C05ReachD", "GunYu.Props.C05Spec"],
     "audit_namespaces": ["GunYu.Props.C05"],
     "required_theorems": [
         "GunYu.Props.C05.disk_reader_delivers",
@@ -134,12 +134,28 @@ PROP = {
         "GunYu.Props.C05.mem_window_segments_true",
         "GunYu.Props.C05.mem_window_pending_true",
         "GunYu.Props.C05.mem_window_no_wake_is_atomic",
+        "GunYu.Props.C05.disk_reach_core",
+        "GunYu.Props.C05.disk_reader_lag_bounded",
+        "GunYu.Props.C05.disk_reach_end_core",
+        "GunYu.Props.C05.disk_reader_reaches_end",
+        "GunYu.Props.C05.disk_gc_never_adds_lag",
+        "GunYu.Props.C05.diskd_parked_ids_distinct",
+        "GunYu.Props.C05.diskd_lookup_unshadowed",
+        "GunYu.Props.C05.diskd_park_keeps_distinct",
+        "GunYu.Props.C05.diskd_quiet_step_is_cur_step",
+        "GunYu.Props.C05.diskd_reader_lag_bounded",
+        "GunYu.Props.C05.diskd_reader_reaches_end",
+        "GunYu.Props.C05.disk_refines_spec",
+        "GunYu.Props.C05.disk_spec_reader_in_window",
     ],
     "expected_facts": EXPECTED_FACTS,
     "harness": [
+        # thorough tier: the real-goroutine harness C05chan runs under the Go race detector (runner: go_flags_<tier>);
+        # the two sequential harnesses accept the flag too (vfutil.StartRaceLog is wired into all three) but are 10x slower
+        # under it at thorough volume (disk: 11 min under load) - run by hand: add "go_flags_thorough": ["-race"] here
         {"name": "C05", "pkg": "./pkg/store/", "test": "TestVerifC05"},
         {"name": "C05mem", "pkg": "./syncer/", "test": "TestVerifC05mem"},
-        {"name": "C05chan", "pkg": "./syncer/", "test": "TestVerifC05chan"},
+        {"name": "C05chan", "pkg": "./syncer/", "test": "TestVerifC05chan", "go_flags_thorough": ["-race"]},
     ],
     "driver": "drv_C05",
     "rule": "generated operation sequences (150-250 ops per case; LogSize 32..256, MaxSize 2..7 segments or 0) executed sequentially "
@@ -181,6 +197,8 @@ PROP = {
             "the DelRunId guard, aofSync / rdbSync's guard, DelRunId and writer constructors with arguments) pins what `callerAllows` transcribes; "
             "c05_fn_* digests pin the hand-transcribed functions behind `ask`, the directory operations, the two lock sections of NewAofWritter and "
             "the count behind the snapshot ghost. "
+            "Session 5: the moves of the bounded-progress theorems (Props/C05Reach.lean: PMove.follow / followGc / other gc, append, other readers' ops) are exactly driven operations (dread, dreadgc, dgc, "
+            "daofa, drdba, dopen / dread / dclose of other readers); THOROUGH tier: C05chan (the real-goroutine harness) runs under the Go race detector, reports become data-race violations (repository code on both sides) or infrastructure faults. "
             "distinct_nontrivial = cases with rotation and a reader that crossed a segment boundary",
     "trusted": [
         "testing/synctest quiescence (memory harness): after synctest.Wait every goroutine of the channel is durably blocked",
@@ -242,7 +260,8 @@ PROP = {
         "invariant mem_tail_invariant: every indexed segment but the writer's is closed and non-empty); mem_valid_offset_has_delivering_move: a covered offset below the end can be opened and the started reader delivers within two iterations); "
         "offsets SERVED BY THE SNAPSHOT: disk_snapshot_reader_delivers_next / disk_valid_snapshot_offset_has_delivering_move (a snapshot reader below what the file holds gets >= 1 byte; "
         "a snapshot without writer holds all size bytes); the MEMORY counterpart for snapshot readers is not proved (needs 'every snapshot segment but the writer's is closed and non-empty'); "
-        "NOT proved: the reader REACHES the end under a fair schedule (liveness), and nothing about the consumer side of the pipe (a full pipe blocks the copy loop: writeAll); (d) the consumer side (pipe, bufio) is modelled "
+        "REACHING the end: DISK proved in session 5 as bounded progress (see the disk-progress item below); MEMORY: only the two-iteration step above is proved, the composition over a schedule "
+        "(copy loops, appends, collector passes inside appends) is NOT; nothing about the consumer side of the pipe (a full pipe blocks the copy loop: writeAll); (d) the consumer side (pipe, bufio) is modelled "
         "(buf/bbuf) but `out` is what the copy loop wrote to the pipe — that the consumer reads exactly `out` is the consume step's definition + correspondence",
         "memory model vs code, differences that remain (each property-neutral, reasons): (1) [modelled in session 4] NewAofWritter's two lock sections are three steps of "
         "Model/StoreMemWindow.lean (install / oldWake / finishOld, any operation in between); proved for ALL such lists under SrcOkW: every reader holding an indexed segment "
@@ -260,14 +279,46 @@ PROP = {
         "real-time: no verdict of the C05 harnesses depends on wall-clock time any more — budgets are counted in polls of a reference goroutine (vfutil.StartBudget, twice the nominal duration), "
         "the hard limit (10 min) and the whole-test watchdogs end the run as an infrastructure failure (broken tie), never as a violation",
         "disk refinement is proved as `abs s = suffix of the written history from abs.base` in every reachable state (disk_refines) + the per-op history lemma; "
-        "a separate abstract transition system with a simulation relation is not defined",
+        "abstract specification, STREAM PART (session 5, Proofs/StoreSpec.lean, Props/C05Spec.lean): spec state = byte history since the last reset (base, hist), first held offset lo, open stream readers "
+        "(start, pos, out); abstraction function Disk.spec; ONE importable statement disk_refines_spec: in every reachable state the spec state is well formed (window inside the history, every open "
+        "reader inside [lo, end], delivered exactly hist[start,pos)), the bytes the index holds ARE the window hist[lo..], ANY next operation is a history-level step (history kept / extended by exactly the "
+        "appended chunk / replaced by an empty one) and, if it respects the protocol, leads to a well-formed spec state. What it is NOT: a labelled transition system with a reader-level step relation for "
+        "every operation (that `lo` only moves forward without a reset, that a step changes only the acting reader's position, which operations remove readers) - those facts exist per operation class "
+        "(disk_gc_keeps_contiguous_suffix, disk_reader_stays_open, disk_invalidation_closes_readers, and for schedules Proofs/StoreReach quiet_frame / follow_move) but are not assembled into one "
+        "simulation relation; the SNAPSHOT (offered / being written) is not part of the spec state; C06 / C16 do not import it yet (their owners' files)",
+        "regeneration: the segment-name / header parsing and the offset arithmetic (ParseRdbFile, '<left>.aof', the 16-byte header) are NOT regenerated by gofn (session 5 task, not done: they go through "
+        "strconv / strings.Split / binary.LittleEndian, outside the translator's subset); they stay tied by the directory listing and byte comparison of the harness and by C08's syscall-level model",
         "findings of the real-goroutine phases (concurrent phase, invalidation, snapshot race, memory stress) are not replayable inputs: the replay names backend, scenario and seed only",
-        "concurrency: real-goroutine phases (memory writer close vs rotation; C05chan: writer + followers + openers + collector) are probabilistic support, not run under -race",
-        "disk progress: disk_reader_delivers_next is the catch-up STEP (AofRotateReader.read delivers >= 1 byte below the writer's end, with or without a collector pass in the rotation); "
-        "that the reader REACHES the end under interleaved gc/appends (a fairness / liveness statement) is not proved",
+        "concurrency: real-goroutine phases (memory writer close vs rotation; C05chan: writer + followers + openers + collector) are probabilistic support. Session 5: in the THOROUGH tier the real-goroutine "
+        "harness C05chan (both backends through the Channel interface: writer, followers, openers, collector, invalidation, snapshot commit race, abandoned writers) is built and run with the Go race detector (go test -race through the overlay; runner key go_flags_thorough); the race runtime's reports are captured (descriptor 2 -> "
+        "<out>/<harness>.race.log, vfutil.StartRaceLog), attributed to the scenario they appeared in and classified: both conflicting accesses made by repository code = VIOLATION data-race "
+        "(replay: harness, scenario with backend / kind / number / seed, the two frames, the report), an access made by harness code = infrastructure fault; in either case the testing package fails "
+        "the run (broken tie). Unchanged tree: no report (seed 1); the two sequential harnesses (C05 disk incl. its rotation-window goroutines, C05mem under synctest incl. its stress phase) "
+        "were run under the detector once at thorough volume in session 5 (no report) and are not part of the tier for cost (10x slower). The QUICK tier does not run the detector (a race that never corrupts an answer is invisible there). "
+        "A race is a witness of an unsynchronised access pair, found only on interleavings the run happened to take - absence of reports proves nothing",
+        "disk progress: disk_reader_delivers_next is the catch-up STEP (AofRotateReader.read delivers >= 1 byte below the writer's end, with or without a collector pass in the rotation). "
+        "Session 5 composes it (Proofs/StoreReach.lean, Props/C05Reach.lean): over ANY schedule of the reader's own moves (Disk.follow / Disk.followGc = the driven dread / dreadgc, any buffer > 0), "
+        "collector passes, appends, snapshot chunks and every move of OTHER readers, from any reachable state, the reader stays valid, never moves back, delivered exactly history[start,pos) and "
+        "its distance to the writer's end is <= lagBound (-1 per own move while positive, + chunk length per append, 0 for everything else): disk_reader_lag_bounded; with no append in the schedule "
+        "and at least (end - pos) own moves it STANDS AT THE END having delivered everything: disk_reader_reaches_end. The liveness reading's fairness assumption ('the reader is scheduled k times "
+        "after the last append') is thereby a HYPOTHESIS of a proved safety theorem; no interleaving of collector passes stalls it (disk_gc_never_adds_lag). NOT covered: schedules containing an "
+        "operation that invalidates the reader (reset, writer replacement, id switch, close: `quiet` excludes them - the reader then ends or fails, disk_invalidation_closes_readers); the reader "
+        "INSIDE a rotation step when the schedule starts (prev = some: its next move is advRelease; `Follows` asks prev = none, which is what the real reader is between two read() calls); the "
+        "worst-case count is bytes, not segments (a move with a buffer >= the segment delivers the whole rest of its file, the bound does not use it); the real reader's WAITING (100 ms sleeps at the "
+        "tail) is not modelled; lifted to several directories for the current index (diskd_reader_lag_bounded / diskd_reader_reaches_end; a quiet op on DiskD is the op on the current index: diskd_quiet_step_is_cur_step)",
+        "memory backend, writer ended by a SOURCE ERROR: the model's writer end is `aofClose` (Close(): the segment is closed with err = nil) - that finishAof closes the segment WITH the source's error when "
+        "ingest fails is not an operation of the model and not an op of the sequential memory harness. It is driven by the real-goroutine harness only (C05chan scenario source-error, both backends, EOF and "
+        "non-EOF endings, chunk sizes 10/48/49/120 at LogSize 64, reader opened below the boundary after the input reconnected; monitors reader-fails-without-invalidation, reader-stalls, "
+        "continuing-writer-refused, valid-but-unreadable). It found D39 (fixed, /repo f794df4: the dead writer's error failed every reader crossing that segment's end, also after a new writer had "
+        "continued). Scratch mutation M5 (finishAof keeps the EMPTY closed segment in the index) was analysed with it: the only input on which the kept segment changes what a reader delivers was this class "
+        "(writer dies by a non-EOF error exactly after a rotation -> the reader failed at the empty segment); since f794df4 a closed segment with a successor is followed whatever it was closed with, an empty "
+        "closed segment without successor ends the reader exactly like the end of the segment before it: M5 is behaviour-neutral for readers (it stays a broken tie: index listing + digest) - argued on the code, "
+        "not a theorem (the model has no empty closed segments: TailInv)",
         "several directories: DInvD carries the invariant of every parked directory; KeysInv (no directory under '' / '?' / the current id) and PosD are proved for all runs "
-        "(diskd_keys_and_positive); that two PARKED directories have different ids is not stated (parkCur puts the current id in front, dirLookup takes the first: a duplicate "
-        "would shadow, never mix, bytes); the tie for parked directories is file NAME:SIZE per directory in ddump, contents only when switched back and read; the file-level content of parked directories (headers, CRC) is C08's model, here a parked "
+        "(diskd_keys_and_positive); session 5: SHADOWING IS UNREACHABLE - the ids of the parked directories are pairwise different and none is the current id after ANY operation list, "
+        "no protocol hypothesis (diskd_parked_ids_distinct; Proofs/StoreDirsDistinct.lean: parkCur adds the current id, which KeysInv keeps out of the keys, dirErase only removes), so dirLookup's "
+        "first match is THE directory of the id (diskd_lookup_unshadowed); in the code the question cannot arise (a file system holds one directory per name) - the theorem says the model's LIST "
+        "never uses the freedom a directory does not have; the tie for parked directories is file NAME:SIZE per directory in ddump, contents only when switched back and read; the file-level content of parked directories (headers, CRC) is C08's model, here a parked "
         "directory is the Disk value it was closed as; VerifyRunId's answer is compared (dverify ok <offset>) and monitored (startpoint-not-latest) but StoreChannel.StartPoint's mapping of it "
         "('?' for offset < 0) is C06's",
     ],
@@ -288,12 +339,14 @@ MANIFEST = {
             "reads, collector passes and id switches); the disk theorems hold per id with several run-id directories in one store (switch to an existing directory, delete of a "
             "foreign id, VerifyRunId, restart; switch away and back restores); progress as safety on both backends (a reader below the writer's end has a delivering step; every "
             "indexed memory segment but the writer's is closed and non-empty); NewAofWritter's two lock sections as three steps: readers deliver the source's bytes through the window. "
+            "Session 5: the disk reader REACHES the writer's end - bounded progress over any schedule of its own moves, collector passes, appends and other readers' moves "
+            "(lag <= counted bound; fairness as a hypothesis: disk_reader_reaches_end); parked directories never share an id (no shadowing: diskd_parked_ids_distinct); thorough tier under the Go race detector. "
             "Tie: generated op sequences on the real Storer and the real MemoryChannel (synctest), every answer, "
             "reference count and byte compared with the model and with independent bookkeeping; source facts pin the callers' offset flow and the hand-transcribed functions.",
     "note": "trusted: Lean kernel, harness, synctest quiescence; assumptions: input.go / replica.go pass the values the caller model names (pinned as source facts), no writer open "
-            "at an id switch / restart, SrcOkW for the window theorem; partial: catch-up STEP instead of a liveness theorem, the NewAofWritter window is modelled and proved but not driven, "
+            "at an id switch / restart, SrcOkW for the window theorem; partial: disk: bounded progress with the fairness hypothesis explicit, memory: catch-up STEP only; no abstract transition system; name/header parsing not regenerated; the NewAofWritter window is modelled and proved but not driven, "
             "the count of a RETRIED snapshot append is tied by the harness only. "
-            "Defects fixed: D14 (memory+disk), D17, D20-D31, D36-D38 (see known_findings.d/C05.json; D37 = RedisInput.syncData left the writer it had created behind on its early return: a snapshot nobody "
+            "Defects fixed: D14 (memory+disk), D17, D20-D31, D36-D39 (D39 = memory: a segment closed with the dead writer's error failed every reader crossing it after the input had reconnected; see known_findings.d/C05.json; D37 = RedisInput.syncData left the writer it had created behind on its early return: a snapshot nobody "
             "would write stayed offered; D38 = Storer.SetRunId('?') renamed the current directory; D31 = reader orphaned by the trim of an empty live segment; D27 = re-scan with open readers at every source reconnect, D28 = reset dead-lock with two tailing readers, D29 = snapshot reader open vs commit race, D30 = memory collector breaks the snapshot->log hand-over, fixed by c06).",
     "technique": "Lean 4 proof (invariant over arbitrary operation lists, step-level refinement) + differential correspondence on generated operation sequences",
 }
